@@ -29,7 +29,7 @@ def strings_upto(n, alpha=None):
 FRAGMENTS = [
     'select', 'from', 'where', 'and', 'or', 'group by', 'order by', 'having', 'limit', 'union', 'union all', 'join',
     'left outer join', 'on', 'as', 'in', 'between', 'case', 'when', 'then', 'else', 'end', 'if', 'end if', 'for',
-    'loop', 'end loop', 'while', 'begin', 'declare', 'create', 'create or replace', 'table', 'function', 'insert',
+    'loop', 'end loop', 'while', 'end while', 'end case', 'begin', 'declare', 'create', 'create or replace', 'table', 'function', 'insert',
     'into', 'values', 'update', 'set', 'delete', 'with', 'over', 'asc', 'desc', 'null', 'not null', 'like', 'go',
     'distinct', 'returning', 'except', 'date', 'interval', 'timestamp', 'day', 'at time zone \'utc\'',
     'a', 'b', 'foo', 't1', 'x.y', '"q"', '`bt`', '[br]', '@v', 'f(', '1', '2.5', '1e3', "'s'", "'it''s'", '$$d$$',
